@@ -193,7 +193,12 @@ def run_obligations(prop, obs, tier):
                 res["failed_tags"] = tags
                 res["cex"] = out.get("cex", "")[:4000]
                 failed, text = ([], "no scripted scenario registered")
-                if ob.get("replay"):
+                all_known = all(common.match_known(prop, "%s:%s" % (rid, tag)) for tag in tags)
+                if all_known:
+                    # recorded findings were reproduced natively when they were recorded (known_findings.json
+                    # names the reproduction); they are not re-run on every check
+                    failed, text = (["<recorded>"], "recorded known finding")
+                elif ob.get("replay"):
                     failed, text = native_replay(ob["replay"], ctx.root)
                 if failed:
                     unknown = []
